@@ -223,7 +223,28 @@ func checkC18(e *core.Env) {
 					}
 					unchanged("cross-representation copy")
 					e.Eval(sig("cross"), true)
-				}
+					} else {
+					// adapters that do not promise conversions between representations may refuse a dynamic
+					// destination, but they neither crash on one nor leave a wrong copy behind
+					for _, from := range []string{"gen", "dyn"} {
+						ddst, _ := toDynamic(full)
+						var in interface{} = src
+						if from == "dyn" {
+							in = dm
+						}
+						if pan := guard(func() { err = cfg.c.Copy(ddst, in) }); pan != "" {
+							viol("copy-"+from+"-to-dyn/panic", pan)
+						} else if err == nil {
+							okEq := false
+							if p2 := guard(func() { okEq = dynEqualsGen(ddst, src) }); p2 != "" {
+								viol("copy-"+from+"-to-dyn/unusable", "the dynamic destination cannot be read any more: "+trunc(p2, 200))
+							} else if !okEq {
+								viol("copy-"+from+"-to-dyn/not-equal", "dynamic destination differs from the source although Copy returned nil")
+							}
+						}
+						e.Eval(sig("copy-"+from+"-to-dyn"), true)
+					}
+					}
 			}
 		}
 		// refusals
@@ -250,6 +271,16 @@ func checkC18(e *core.Env) {
 			viol("non-proto-dest/panic", pan)
 		} else if err == nil {
 			viol("non-proto-dest/accepted", "Copy into a pointer to a non-proto struct was accepted")
+		}
+		// neither is a pointer to an interface variable a message
+		var anyVar interface{}
+		var msgVar proto.Message
+		for di, dest := range []interface{}{&anyVar, &msgVar} {
+			if pan := guard(func() { err = cfg.c.Copy(dest, src) }); pan != "" {
+				viol("non-proto-dest/panic", pan)
+			} else if err == nil {
+				viol(fmt.Sprintf("non-proto-dest/accepted/interface-pointer-%d", di), fmt.Sprintf("Copy into %T (a pointer to an interface variable) was accepted", dest))
+			}
 		}
 		if cfg.name != "CloneFunc(proto.Clone)" || true {
 			var out interface{}
